@@ -190,10 +190,10 @@ def build(cfgname, env):
 
 
 REQUESTS = {
-    "sc-main-22": [("H_tilde", (0, 0, 4)), ("U", (0, 1, 3)), ("H_tilde", (1, 1, 5))],
+    "sc-main-22": [("H_tilde", (0, 0, 4)), ("U", (0, 1, 3)), ("H_tilde", (1, 1, 5)), ("U†", (0, "all", "s:4"))],
     "sc-main-121": [("H_tilde", (1, 1, 3)), ("U†", (2, 0, 3)), ("H_tilde", (0, 0, 4))],
     "sc-nh-22": [("H_tilde", (0, 0, 3)), ("U†", (1, 0, 3)), ("H_tilde", (1, 1, 4))],
-    "bd-main-22": [("H_tilde", (0, 0, 4)), ("U", (1, 0, 3))],
+    "bd-main-22": [("H_tilde", (0, 0, 4)), ("U", (1, 0, 3)), ("H_tilde", (0, 0, "s:4")), ("U", ("all", "all", "s:3"))],
     "bd-main-21fd": [("H_tilde", (0, 0, 3)), ("U", (0, 0, 3))],
     "bd-nh-22": [("H_tilde", (1, 1, 3)), ("U†", (0, 1, 3))],
     "bd-impl-23": [("H_tilde", (0, 0, 3)), ("U", (0, 1, 3)), ("H_tilde", (1, 1, 2))],
@@ -201,11 +201,18 @@ REQUESTS = {
 }
 
 
+def dec(idx):
+    """'s:N' stands for slice(0, N), 'all' for slice(None) (requests are kept hashable / serialisable)."""
+    return tuple(slice(0, int(x[2:])) if isinstance(x, str) and x.startswith("s:") else slice(None) if x == "all" else x for x in idx)
+
+
 def followups(cfgname, req):
     nb = len(CONFIGS[cfgname][1]) + (1 if "impl" in cfgname else 0)
     last = nb - 1
     fu = [req, ("H_tilde", (0, 0, 3)), ("H_tilde", (last, last, 2)), ("U", (0, last, 3)), ("U†", (last, 0, 2)),
-          ("U", (0, 0, 2)), ("H_tilde", (0, 0, 4)), ("H_tilde", (0, 0, 1))]
+          ("U", (0, 0, 2)), ("H_tilde", (0, 0, 4)), ("H_tilde", (0, 0, 1)),
+          # start values (cannot be recomputed) and multi-element requests
+          ("H_tilde", (0, 0, 0)), ("U", (0, 0, 0)), ("U†", (last, last, 0)), ("H_tilde", (0, 0, "s:4")), ("U", ("all", "all", 1))]
     internal = [("X", (0, last, 2)), ("B", (0, 0, 2))]
     return fu, internal
 
@@ -214,7 +221,7 @@ def clean_run(cfgname, req):
     env = Env()
     series, outs = build(cfgname, env)
     c0 = env.count
-    outs[req[0]][req[1]]
+    outs[req[0]][dec(req[1])]
     return env.count - c0, c0
 
 
@@ -298,7 +305,7 @@ def cases(tier, seed):
     double_K = 40 if tier == "quick" else 120
     cfgs = list(CONFIGS)
     for cfgname in cfgs:
-        reqs = REQUESTS[cfgname] if tier != "quick" else REQUESTS[cfgname][:2]
+        reqs = REQUESTS[cfgname] if tier != "quick" else REQUESTS[cfgname][:2] + [r for r in REQUESTS[cfgname][2:] if any(isinstance(x, str) for x in r[1])]
         for req in reqs:
             K, c0 = clean_run(cfgname, req)
             for exc in EXC:
@@ -331,7 +338,7 @@ def clean_value(cfgname, name, index):
             _clean_cache[key] = None
         else:
             try:
-                _clean_cache[key] = fingerprint(s[index])
+                _clean_cache[key] = fingerprint(s[dec(index)])
             except Exception as e:  # noqa: BLE001
                 _clean_cache[key] = f"EXC:{type(e).__name__}"
     return _clean_cache[key]
@@ -358,7 +365,7 @@ def run_case(case):
         env.fire[base + k] = exc
         entries_before = sum(len(o._data) for _, o in stores if hasattr(o, "_data"))
         try:
-            outs[req[0]][req[1]]
+            outs[req[0]][dec(req[1])]
         except BaseException as e:  # noqa: BLE001
             if not isinstance(e, exc):
                 V.append(f"fault {exc.__name__} at #{k} surfaced as {type(e).__name__}: {str(e)[:80]}")
@@ -392,7 +399,7 @@ def run_case(case):
             continue
         want = clean_value(cfgname, name, idx)
         try:
-            got = fingerprint(s[idx])
+            got = fingerprint(s[dec(idx)])
         except BaseException as e:  # noqa: BLE001
             got = f"EXC:{type(e).__name__}"
             if want != got:
